@@ -340,6 +340,9 @@ static void run_call(int callno) {
   char text[70000]; int tlen = (int)strlen(chosen); memcpy(text, chosen, tlen); if (ti == 11) { text[0] = 0; text[1] = 'O'; text[2] = 'K'; tlen = 3; }
   int pad = (int[]){0, 0, 0, 230, 253, 254, 300, 65000}[choose("reply-pad", fault_free ? 3 : 8)];
   if (pad && tlen >= 2) { if (tlen == 2) text[tlen++] = ' '; for (int i = 0; i < pad && tlen < 69000; i++) text[tlen++] = 'm'; }
+  /* an over-long negative reply whose text says "OK" again where a reader working in 256-byte
+     chunks would start its next chunk */
+  if (tlen > 262 && choose("ok-at-chunk-boundary", 2)) { for (int off = 256; off + 3 < tlen; off += 256) memcpy(text + off, "OK ", 3); }
   int declared = tlen;
   if (!fault_free) switch (choose("reply-len-field", 6)) { case 1: declared = tlen + 1 + choose("len-over", 300); break; case 2: declared = tlen > 0 ? choose("len-under", tlen) : 0; break; case 3: declared = 65535; break; case 4: declared = 0; break; }
   reply_len = 0; reply[reply_len++] = declared >> 8; reply[reply_len++] = declared & 255; memcpy(reply + reply_len, text, tlen); reply_len += tlen;
